@@ -37,17 +37,19 @@ Print Assumptions C15_next_due_is_first_later_boundary.
 (* T15.ticks (main): EVERY history of the model of the checked-out source is accepted by the
    checker: any number of timers with intervals >= 0 created at any times, any callback scripts of
    any length (durations, return values, .timerc of itself / another timer / a non-timer,
-   redefinition, raise), any external .timerc / redefinitions, any dispatch latencies (early,
+   redefinition, raise, creation of further timers from inside callbacks; results of any kind, judged as
+   Klong truth values: numbers, strings, lists, other), any external .timerc / redefinitions, any dispatch latencies (early,
    on time, late by any amount), either order of equal deadlines, any number of loop iterations.
    The flags are those regenerated from the source; the term only type-checks while all four
    compute to true. *)
-Theorem C15_ticks : forall cfg t0 xs ts lats fuel, 0 < c_res cfg ->
-  accepted false (c_res cfg) t0 (snd (simulate src_flags cfg t0 xs ts lats fuel)).
+Theorem C15_ticks : forall cfg t0 xs ts pool lats fuel, 0 < c_res cfg ->
+  accepted false (c_res cfg) t0 (snd (simulate src_flags cfg t0 xs ts pool lats fuel)).
 Proof.
-  exact (fun cfg t0 xs ts lats fuel =>
-    simulate_accepted src_flags cfg t0 xs ts lats fuel
+  exact (fun cfg t0 xs ts pool lats fuel =>
+    simulate_accepted src_flags cfg t0 xs ts pool lats fuel
       (conj (eq_refl : f_guard src_flags = true) (conj (eq_refl : f_clear src_flags = true)
-        (conj (eq_refl : f_mono src_flags = true) (eq_refl : f_resolve src_flags = true))))).
+        (conj (eq_refl : f_mono src_flags = true) (conj (eq_refl : f_truth src_flags = true)
+          (eq_refl : f_resolve src_flags = true)))))).
 Qed.
 Print Assumptions C15_ticks.
 
@@ -85,57 +87,76 @@ Print Assumptions C15_timerc_exact.
 
 (* "never before an interval boundary", literally: holds for every history whose ticks were
    dispatched at or after their deadline ... *)
-Theorem C15_strict_holds_outside_early_dispatch : forall cfg t0 xs ts lats fuel, 0 < c_res cfg ->
-  Forall tick_on_time (snd (simulate src_flags cfg t0 xs ts lats fuel)) ->
-  accepted true (c_res cfg) t0 (snd (simulate src_flags cfg t0 xs ts lats fuel)).
+Theorem C15_strict_holds_outside_early_dispatch : forall cfg t0 xs ts pool lats fuel, 0 < c_res cfg ->
+  Forall tick_on_time (snd (simulate src_flags cfg t0 xs ts pool lats fuel)) ->
+  accepted true (c_res cfg) t0 (snd (simulate src_flags cfg t0 xs ts pool lats fuel)).
 Proof.
-  exact (fun cfg t0 xs ts lats fuel Hres Hon =>
+  exact (fun cfg t0 xs ts pool lats fuel Hres Hon =>
     strict_accepts_on_time (c_res cfg) _ (mstate0 t0) Hon
-      (simulate_accepted src_flags cfg t0 xs ts lats fuel
+      (simulate_accepted src_flags cfg t0 xs ts pool lats fuel
         (conj (eq_refl : f_guard src_flags = true) (conj (eq_refl : f_clear src_flags = true)
-          (conj (eq_refl : f_mono src_flags = true) (eq_refl : f_resolve src_flags = true)))) Hres)).
+          (conj (eq_refl : f_mono src_flags = true) (conj (eq_refl : f_truth src_flags = true)
+            (eq_refl : f_resolve src_flags = true))))) Hres)).
 Qed.
 Print Assumptions C15_strict_holds_outside_early_dispatch.
 
 (* ---- witnesses ---------------------------------------------------------------------- *)
 Definition cfgw := mk_config 1024 false.
 Definition sec := 1048576.
+Definition yes := RNum 1.
 Definition rejected (fl : flags) strict xs ts lats : Prop :=
-  mon_run strict 1024 (mstate0 0) (snd (simulate fl cfgw 0 xs ts lats 8)) = None.
+  mon_run strict 1024 (mstate0 0) (snd (simulate fl cfgw 0 xs ts [] lats 8)) = None.
 
 (* ... and fails under an event loop that dispatches within its clock resolution before the
    deadline (asyncio's rule): known finding C15-early-within-resolution *)
 Theorem C15_strict_early_refuted :
-  rejected (mk_flags true true true true) true [] [mk_tspec 0 sec [mk_step 0 true ANone; default_step]] [-512].
+  rejected (mk_flags true true true true true) true [] [mk_tspec 0 sec [mk_step 0 yes ANone; default_step]] [-512].
 Proof. vm_compute. reflexivity. Qed.
 
 (* R9, first class (repaired by the guard): cancel-self inside the callback, then return true *)
 Theorem C15_self_cancel_refuted_without_guard :
-  rejected (mk_flags false true true true) false [] [mk_tspec 0 sec [mk_step 0 true (ACancel 0); default_step]] [].
+  rejected (mk_flags false true true true true) false [] [mk_tspec 0 sec [mk_step 0 yes (ACancel 0); default_step]] [].
 Proof. vm_compute. reflexivity. Qed.
 
 (* R9, second class (repaired by clearing the delegate): .timerc after a raising callback returned 1 *)
 Theorem C15_raise_refuted_without_clear :
-  rejected (mk_flags true false true true) false [(3 * sec, XCancel 0)] [mk_tspec 0 sec [mk_step 0 true ARaise]] [].
+  rejected (mk_flags true false true true true) false [(3 * sec, XCancel 0)] [mk_tspec 0 sec [mk_step 0 yes ARaise]] [].
 Proof. vm_compute. reflexivity. Qed.
 
 (* R9, third class (repaired by the monotone re-arm): early dispatch armed the same boundary twice *)
 Theorem C15_early_rearm_refuted_without_mono :
-  rejected (mk_flags true true false true) false [] [mk_tspec 0 sec [mk_step 0 true ANone; default_step]] [-512].
+  rejected (mk_flags true true false true true) false [] [mk_tspec 0 sec [mk_step 0 yes ANone; default_step]] [-512].
+Proof. vm_compute. reflexivity. Qed.
+
+(* Python truth instead of Klong truth (repaired by _is_true): a two-element list is true in Klong, `if r`
+   raises after the try block: the timer is dead, no tick follows (the loop goes idle with an alive timer) ... *)
+Theorem C15_list_result_refuted_without_klong_truth :
+  rejected (mk_flags true true true false true) false [] [mk_tspec 0 sec [mk_step 0 (RList 2 true) ANone; default_step]] [].
+Proof. vm_compute. reflexivity. Qed.
+
+(* ... [] is false in Klong, `if r` raises all the same and leaves the spent handle: .timerc returns 1 for the stopped timer ... *)
+Theorem C15_empty_result_refuted_without_klong_truth :
+  rejected (mk_flags true true true false true) false [(3 * sec, XCancel 0)] [mk_tspec 0 sec [mk_step 0 (RList 0 false) ANone]] [].
+Proof. vm_compute. reflexivity. Qed.
+
+(* ... and [0] is true in Klong but stops the timer *)
+Theorem C15_zero_list_result_refuted_without_klong_truth :
+  rejected (mk_flags true true true false true) false [] [mk_tspec 0 sec [mk_step 0 (RList 1 false) ANone; default_step]] [].
 Proof. vm_compute. reflexivity. Qed.
 
 (* T15.resolve: without the lookup at every call a redefinition would not take effect *)
 Theorem C15_resolve_refuted_without_lookup :
-  rejected (mk_flags true true true false) false [] [mk_tspec 0 sec [mk_step 0 true (ARedef 0); default_step]] [].
+  rejected (mk_flags true true true true false) false [] [mk_tspec 0 sec [mk_step 0 yes (ARedef 0); default_step]] [].
 Proof. vm_compute. reflexivity. Qed.
 
 (* Non-vacuity: a concrete system (two timers, a slow callback that misses two boundaries, a
-   cancel of the other timer, an external .timerc, early and late dispatch) whose history has
-   16 events, is accepted, and ends idle. *)
+   cancel of the other timer, a callback that creates a third timer, a list result, an external
+   .timerc, early and late dispatch) whose history is accepted and ends idle. *)
 Example C15_ticks_example :
   let tr := snd (simulate src_flags cfgw 7 [(6 * sec, XCancel 0)]
-                  [mk_tspec 0 sec [mk_step (2 * sec + 5) true ANone; mk_step 0 true (ACancel 1); mk_step 0 true ANone];
-                   mk_tspec 3 (2 * sec) [mk_step 0 true (ARedef 1); mk_step 0 true ANone]]
+                  [mk_tspec 0 sec [mk_step (2 * sec + 5) yes ANone; mk_step 0 (RList 2 false) (ACancel 1); mk_step 0 yes ASpawn];
+                   mk_tspec 3 (2 * sec) [mk_step 0 yes (ARedef 1); mk_step 0 yes ANone]]
+                  [(sec, [mk_step 0 (RStr 1) ANone; mk_step 0 (RStr 0) ANone])]
                   [-512; 100; 0; 3 * sec] 40) in
-  length tr = 16%nat /\ last tr EvIdle = EvIdle /\ mon_run false 1024 (mstate0 7) tr <> None.
+  length tr = 21%nat /\ last tr EvIdle = EvIdle /\ mon_run false 1024 (mstate0 7) tr <> None.
 Proof. vm_compute. repeat split; discriminate. Qed.
